@@ -33,6 +33,9 @@ func VerifForest(content []byte) (docs []VerifDoc, lines []string, yerr *ParseEr
 			yerr = &pe
 			break
 		}
+		// Parse moves nodes yaml placed after the end of the input back onto the last line (fix 5430596) before any
+		// parse function sees them: the forest handed to the model is the clamped one.
+		clampLines(&doc, cr, map[*yaml.Node]bool{})
 		docs = append(docs, VerifDoc{Node: &doc, NLines: len(cr.lines)})
 	}
 	return docs, cr.lines, yerr, cr.lineno
